@@ -203,5 +203,6 @@ pub fn def() -> PropDef {
             Space { name: "random", decode: decode_random, plan: |t| Plan::Random(t.n(400_000, 8_000_000)) },
         ],
         differential: false,
+        floors: &[("words", 0.5)],
     }
 }
